@@ -118,6 +118,8 @@ def gen(rng, tier, index):
 
 
 def shrink(scn):
+    if scn.get("kind"):
+        return
     for key in ("cancels", "consumer", "producer"):
         lst = scn[key]
         n = len(lst)
@@ -195,7 +197,51 @@ class StreamError(Exception):
     pass
 
 
+def enumerate_cases(tier, seed):
+    """Directed cases run before the seeded search."""
+    yield {"kind": "empty_payload", "calls": 4}
+    yield {"kind": "empty_payload", "calls": 2}
+
+
+ENUM_RULE = "directed cases: the shared EMPTY_PAYLOAD reader consumed with readchunk()/iter_chunks() several times"
+
+
+def _run_empty_payload(scn, ch, log):
+    """The body-less payload singleton must report end-of-stream the way every reader does:
+    readchunk() -> (b"", False); a consumer loop over iter_chunks() must terminate."""
+    from aiohttp.streams import EMPTY_PAYLOAD
+
+    viols = []
+    with World(ch, 0, log_events=log) as w:
+        loop = w.loop
+        got = []
+
+        async def consume():
+            for _ in range(scn["calls"]):
+                got.append(await EMPTY_PAYLOAD.readchunk())
+            n = 0
+            async for _item in EMPTY_PAYLOAD.iter_chunks():
+                n += 1
+                if n >= 5:
+                    got.append("iter_chunks_did_not_stop")
+                    break
+
+        t = loop.run_sim(consume(), vt_cap=5.0, step_cap=10_000)
+        if not t.done():
+            viols.append({"invariant": "eof_after_all_data", "key": "empty_payload_consumer_blocked", "message": "consumer of EMPTY_PAYLOAD blocked"})
+        elif any(g != (b"", False) for g in got):
+            viols.append({"invariant": "eof_after_all_data", "key": "empty_payload_readchunk_not_eof_marker",
+                          "message": f"EMPTY_PAYLOAD (shared by every body-less message): successive readchunk() calls returned {got}; "
+                                     f"the documented end-of-stream marker is (b'', False) - a consumer looping until it sees the marker "
+                                     f"(async for over iter_chunks()) never ends and never yields to the loop"})
+        st = w.stats()
+        return {"violations": viols, "nontrivial": True, "sig": "empty_payload%d" % scn["calls"], "digest": st["digest"], "steps": st["steps"],
+                "vtime": st["vtime"], "faults": st["faults"], "probes": {"empty_payload_case": 1}, "shape": "empty_payload"}
+
+
 def run(scn, ch, log=False):
+    if scn.get("kind") == "empty_payload":
+        return _run_empty_payload(scn, ch, log)
     from aiohttp.base_protocol import BaseProtocol
     from aiohttp.http_exceptions import LineTooLong
     from aiohttp.streams import StreamReader
